@@ -1,0 +1,15 @@
+//go:build verif
+
+package dnsserver
+
+import (
+	"context"
+	"net/http"
+)
+
+// VerifC03AddRequestInfo exposes addRequestInfo: the request information (URL,
+// basic-auth userinfo, TLS server name) that the DoH server derives from an
+// HTTP request and hands to the device finder.
+func VerifC03AddRequestInfo(r *http.Request) (ri *RequestInfo) {
+	return MustRequestInfoFromContext(addRequestInfo(context.Background(), r))
+}
